@@ -52,6 +52,9 @@ structure Defs where
   onFinal : Nat → List Nat
   /-- `HierarchicalMachine.on_final` -/
   machineOnFinal : List Nat
+  /-- `getattr(machine, 'final', False)` is truthy: the machine object has an attribute named `final` — it is its
+  own model and has an event (or a state `is_`/`to_` helper… any attribute) called `final`; a plain machine has none -/
+  machineFinalAttr : Bool := false
 
 /-- whose `on_final` list a collected partial runs -/
 inductive Owner
@@ -116,12 +119,18 @@ inductive RootResult
 no `final` attribute and no `scoped_enter`); `roots` is the whole new configuration. -/
 def finalCheckRoot (D : Defs) (E : List Nat) (roots : List Tree) : RootResult :=
   let r := finalLoop D E roots [] true
-  if roots.isEmpty then .ok []                       -- getattr(machine, 'final', False) → False
+  if roots.isEmpty then
+    -- elif getattr(machine, 'final', False): if self._just_entered(…): …
+    if D.machineFinalAttr && !E.isEmpty then .attributeError else .ok []
   else if r.2 then
     if !r.1.isEmpty then .ok (r.1 ++ [.machine])     -- `on_final_cbs or …` short-circuits
     else if E.isEmpty then .ok r.1                   -- any() over no partials: nothing is evaluated
     else .attributeError                             -- first partial: `machine.scoped_enter`
-  else .ok r.1      -- `elif getattr(machine, 'final', False) and …`: False, nothing is evaluated
+  else if D.machineFinalAttr && !E.isEmpty then
+    -- elif getattr(event_data.machine.scoped, 'final', False) and self._just_entered(…): `scoped` is the machine;
+    -- when the machine HAS an attribute `final` the second operand is evaluated: `machine.scoped_enter`
+    .attributeError
+  else .ok r.1
 
 /-- the callbacks `_change_state` then runs: `for on_final_cb in on_final_cbs: on_final_cb()`, each a
 `machine.callbacks(owner.on_final, event_data)` -/
